@@ -25,6 +25,9 @@ const lockName = "L"
 const lockPath = "locks/"
 const lockKey = lockPath + lockName
 
+// names of the second lock ("noise_lock" knob), all related to "L"
+var noiseNames = []string{"L2", "l", "L/L", "", "LL", "K"}
+
 var errInjected = stderrors.New("injected: storage unavailable")
 
 type provider struct {
@@ -77,6 +80,10 @@ type world struct {
 	inside  map[string]bool
 	voided  bool
 	gateTen *tenure
+	noiseTasks, noiseDone, noiseInside int
+	outageNodes map[int]bool // nodes that lose the storage for a while (op "outage")
+	deadNode    map[int]bool
+	hangFaults bool // a storage call may hang on a timer worker: leases of other locks are not judged
 	ordAcq  int64
 	ordRenew int64
 	faults  map[string]sim.Fault // key seam:ord
@@ -100,7 +107,7 @@ type world struct {
 
 func New(c *sim.Case) (sim.World, error) {
 	return &world{c: c, mode: c.Mode, inside: map[string]bool{}, byName: map[string]*taskState{}, faults: map[string]sim.Fault{},
-		byVer: map[string]*tenure{}, curTen: map[string]*tenure{}, partitioned: map[int]bool{}}, nil
+		byVer: map[string]*tenure{}, curTen: map[string]*tenure{}, partitioned: map[int]bool{}, outageNodes: map[int]bool{}, deadNode: map[int]bool{}}, nil
 }
 
 func (w *world) prop() string { return w.c.Prop }
@@ -450,6 +457,9 @@ func (w *world) Setup(e *sim.Env) {
 	w.be = be
 	for _, f := range w.c.Faults {
 		w.faults[fmt.Sprintf("%s:%d", f.Seam, f.Ord)] = f
+		if f.Kind == "stall" || f.Kind == "stall_lost" {
+			w.hangFaults = true
+		}
 	}
 	np := int(w.c.Knob("providers", 1))
 	nl := int(w.c.Knob("lockers", 2))
@@ -463,6 +473,61 @@ func (w *world) Setup(e *sim.Env) {
 		pi := i % np
 		w.lockers = append(w.lockers, w.provs[pi].p.NewLocker(lockName))
 		w.lockerProv = append(w.lockerProv, pi)
+	}
+	if nn := int(w.c.Knob("noise_lock", 0)); nn > 0 {
+		// a second lock of the same providers on the same storage, under a name that is
+		// related to the first one (extension, other letter case, nested path): its
+		// users come and go on their own; whatever they do must not reach lock "L",
+		// and they exclude each other as well
+		name2 := noiseNames[(nn-1)%len(noiseNames)]
+		nTasks := int(w.c.Knob("noise_tasks", 2))
+		nOps := int(w.c.Knob("noise_ops", 3))
+		hold := time.Duration(w.c.Knob("noise_hold_ns", int64(w.lease/10)))
+		for i := 0; i < nTasks; i++ {
+			pi := i % np
+			if nd := w.c.Knob("noise_node", -1); nd >= 0 {
+				pi = int(nd) % np
+			}
+			lk := w.provs[pi].p.NewLocker(name2)
+			name := fmt.Sprintf("zn%d", i)
+			w.noiseTasks++
+			e.Spawn(name, func() {
+				defer func() { w.noiseDone++ }()
+				for k := 0; k < nOps; k++ {
+					zsimrt.Yield("noise:op")
+					ok := false
+					if k%2 == 1 {
+						ok = lk.TryLock(context.Background())
+					} else {
+						ctx, cancel := context.WithCancel(context.Background())
+						stop := false
+						e.Spawn(fmt.Sprintf("%s.c%d", name, k), func() {
+							zsimrt.Sleep("noise:giveup", 3*w.lease)
+							if !stop {
+								cancel()
+							}
+						}, nil)
+						ok = lk.LockWithCtx(ctx) == nil
+						stop = true
+						cancel()
+					}
+					if !ok {
+						e.Probe("noise_lock_not_acquired")
+						continue
+					}
+					e.Probe("noise_lock_acquired")
+					w.noiseInside++
+					if w.noiseInside > 1 && !w.voided && !w.hangFaults && len(w.outageNodes) == 0 {
+						e.Violate(w.prop(), "overlap_second_lock", "two callers hold the second lock %q of the same providers at the same time", name2)
+					}
+					zsimrt.Sleep("noise:cs", hold)
+					w.noiseInside--
+					lk.Unlock()
+				}
+			}, func(v any, stack string) {
+				e.Violate(w.prop(), "panic", "panic in %s (user of the second lock %q): %v", name, name2, v)
+			})
+		}
 	}
 	for ti := range w.c.Tasks {
 		t := w.c.Tasks[ti]
@@ -555,6 +620,21 @@ func (w *world) runTask(ts *taskState, t sim.Task) {
 				p.shutReturned = true
 				e.Probe("shutdown")
 			}
+		case "outage":
+			// the storage is unreachable from one provider's node for a while, then it is back
+			node := int(op.N) % len(w.provs)
+			if w.partitioned[node] {
+				break
+			}
+			w.partitioned[node] = true
+			w.outageNodes[node] = true
+			e.FaultFired("storage_outage_of_one_node")
+			e.Logf("outage of node %d for %v", node, time.Duration(op.D))
+			zsimrt.Sleep("task:outage", time.Duration(op.D))
+			if !w.deadNode[node] {
+				w.partitioned[node] = false
+			}
+			e.Logf("node %d reaches the storage again", node)
 		case "sleep":
 			zsimrt.Sleep("task:sleep", time.Duration(op.D))
 		}
@@ -732,6 +812,7 @@ func (w *world) die(ts *taskState) {
 	e := w.e
 	e.Logf("holder %s dies (node %d partitioned)", ts.name, ts.prov.idx)
 	w.partitioned[ts.prov.idx] = true
+	w.deadNode[ts.prov.idx] = true
 	ts.dead = true
 	w.deadTask = ts.name
 	w.holderDeadAt = time.Now()
@@ -881,7 +962,7 @@ func (w *world) Quiet(e *sim.Env) bool {
 }
 
 func (w *world) Finished(e *sim.Env) bool {
-	if w.nDone < len(w.tasks) {
+	if w.nDone < len(w.tasks) || w.noiseDone < w.noiseTasks {
 		return false
 	}
 	switch w.phase {
